@@ -70,7 +70,7 @@ class Effects:
         fv = R.fnview(self.ctx, body)
         # locals that hold `&mut <monitored place>` (direct) -> class set
         mutref = {}
-        owned = lambda l: l > body.argc and not body.ty(l).startswith(("&", "*"))
+        owned = lambda l: l > body.argc and not _carries_ref(body.ty(l))
         self._owned = owned
         for bi in range(fv.n):
             if body.cleanup[bi]:
@@ -190,11 +190,17 @@ class Effects:
         return out
 
 
+def _carries_ref(ty):
+    """the type is or contains a borrow / shared handle (so a value of it may alias shared state)"""
+    return "&" in ty or "*mut" in ty or "*const" in ty or "MutexGuard" in ty or "Arc<" in ty or "Weak<" in ty \
+        or "RefMut<" in ty or "Rc<" in ty
+
+
 def _root_local(fv, body, local, depth=0):
     """follow reference locals back to the local they point into; returns (local, through_deref_of_param)"""
     if depth > 12:
         return local
-    if not body.ty(local).startswith(("&", "*")) and "MutexGuard" not in body.ty(local):
+    if not _carries_ref(body.ty(local)):
         return local
     ds = fv.defs.get(local, [])
     if len(ds) != 1:
@@ -214,14 +220,13 @@ def _root_local(fv, body, local, depth=0):
 
 def _args_are_local(self, fv, body, call):
     """every by-reference argument of the call is rooted in a value owned by this function"""
-    refs = [a for a in call.args if a.place is not None and body.ty(a.place.local).startswith(("&", "*"))]
+    refs = [a for a in call.args if a.place is not None and _carries_ref(body.ty(a.place.local))]
     if not refs:
         # by-value receivers (Arc clones etc.) may alias shared state: be conservative
         return False
     for a in refs:
         r = _root_local(fv, body, a.place.local)
-        if r <= body.argc or body.ty(r).startswith(("&", "*")) or "MutexGuard" in body.ty(r) or \
-           "Arc<" in body.ty(r) or "Weak<" in body.ty(r):
+        if r <= body.argc or _carries_ref(body.ty(r)):
             return False
     return True
 
@@ -309,3 +314,155 @@ def is_atomic(ctx, eff, body, storage_pred, classes=None, _stack=None, kinds=("e
     r = not e5_pairs(ctx, eff, body, storage_pred, classes, _stack=_stack | {body.d.id}, kinds=kinds)
     cache[key] = r
     return r
+
+
+# ---------------------------------------------------------------------------- E6
+class Durability:
+    """persist-before-acknowledge.  classes: {name: persister_pred}.  A function *leaks* class D when some success
+    return is reachable from a mutation of D without passing, after the mutation, the successful completion of a
+    persister call for D (directly or inside a callee that does not leak D itself)."""
+
+    def __init__(self, ctx, eff, persisters, skip=R.is_test_util, mutates_only_on_success=(), exceptions=(),
+                 storage_pred=None):
+        self.exceptions = set(exceptions)
+        self.storage_pred = storage_pred
+        self.ctx = ctx
+        self.eff = eff
+        self.persisters = persisters
+        self.skip = skip
+        self.mutates_only_on_success = set(mutates_only_on_success)
+        self._leaks = {}
+
+    def persist_edges(self, fv, body, cls):
+        """edges that mean 'a persister call for cls completed successfully'"""
+        pred = self.persisters[cls]
+        edges = set()
+        for bi, c in body.calls():
+            n1 = c.callee.name if c.callee else ""
+            n2 = c.decl.name if c.decl else ""
+            direct = pred(n1) or pred(n2)
+            via = False
+            if not direct:
+                cal = [x for x in self.eff.callees(c, body)]
+                # a callee that always persists cls before its own success returns
+                via = bool(cal) and all(self.always_persists(x, cls) for x in cal)
+            if direct or via:
+                es = fv.result_edges(bi, c, "ok")
+                if not es and c.target is not None:
+                    es = {(bi, c.target)}       # result not inspected (e.g. returns ()): completion edge
+                edges |= es
+        return edges
+
+    def always_persists(self, body, cls, _stack=None):
+        key = ("ap", body.d.id, cls)
+        if key in self._leaks:
+            return self._leaks[key]
+        _stack = _stack or set()
+        if body.d.id in _stack or self.skip(body.name):
+            return False
+        self._leaks[key] = False
+        fv = R.fnview(self.ctx, body)
+        pred = self.persisters[cls]
+        edges = set()
+        for bi, c in body.calls():
+            n1 = c.callee.name if c.callee else ""
+            n2 = c.decl.name if c.decl else ""
+            if pred(n1) or pred(n2):
+                es = fv.result_edges(bi, c, "ok")
+                if not es and c.target is not None:
+                    es = {(bi, c.target)}
+                edges |= es
+        succ = fv.success_sites()
+        r = bool(edges) and bool(succ) and all(fv.must_pass(s["block"], edges) for s in succ)
+        self._leaks[key] = r
+        return r
+
+    def leaks(self, body, cls, _stack=None):
+        """list of (site, return_site) pairs: mutation of cls acknowledged without persisting"""
+        key = (body.d.id, cls)
+        if key in self._leaks:
+            return self._leaks[key]
+        _stack = _stack or set()
+        if body.d.id in _stack or (body.name, cls) in self.exceptions:
+            return []
+        self._leaks[key] = []
+        fv = R.fnview(self.ctx, body)
+        pe = self.persist_edges(fv, body, cls)
+        out = []
+        succ = fv.success_sites()
+        for (bi, k, cs, desc, ln) in self.eff.local_sites(body):
+            if cls not in cs:
+                continue
+            for r in succ:
+                if r["block"] in self._after(fv, bi, pe):
+                    out.append(((bi, desc, ln), r))
+        for bi, c in body.calls():
+            leaking = []
+            for cal in self.eff.callees(c, body):
+                if cls in self.eff.summary(cal) and self.leaks(cal, cls, _stack | {body.d.id}):
+                    leaking.append(cal.name)
+            if not leaking or self.eff.args_are_local(fv, body, c):
+                continue
+            only_ok = None
+            if all(x in self.mutates_only_on_success for x in leaking):
+                only_ok = fv.result_edges(bi, c, "ok")
+            elif fv.result_edges(bi, c, "err") and _callees_atomic(self.ctx, self.eff, body, c, self.storage_pred,
+                                                                    {cls}, None):
+                # failure-atomic callee: nothing changed when it reports failure
+                only_ok = fv.result_edges(bi, c, "ok")
+            for r in succ:
+                if r["block"] in self._after(fv, bi, pe, only_ok):
+                    out.append(((bi, f"call {leaking[0]}", c.line), r))
+        self._leaks[key] = out
+        return out
+
+    def _after(self, fv, bi, pe, start_edges=None):
+        """blocks reachable after the mutation at block bi without completing a persister call.
+        Flag refinement: `dirty = true` set together with the mutation and tested later (`if dirty { persist }`):
+        the flag's false edge is infeasible after the mutation."""
+        cut = set(pe) | self._flag_cuts(fv, bi)
+        seen = set()
+        starts = [(bi, v) for v in fv.succ[bi]] if start_edges is None else list(start_edges)
+        for (u, v) in starts:
+            if (u, v) in cut or (u, v) in fv.removed:
+                continue
+            seen |= fv.reach(v, cut_edges=cut)
+        if start_edges is None:
+            seen.add(bi)
+        return seen
+
+    def _flag_cuts(self, fv, bi):
+        b = fv.b
+        cuts = set()
+        after = fv.reach(bi)
+        for sb in after:
+            t = b.term(sb)
+            if t.kind != "switch" or t.discr.place is None or not t.discr.place.is_local():
+                continue
+            l = t.discr.place.local
+            # switch directly on a bool local, or on a copy of it
+            src = l
+            sd = fv.defs.get(l, [])
+            if len(sd) == 1 and sd[0][1] != "T" and sd[0][2].kind == "a" and sd[0][2].rv.op == "use" and \
+               sd[0][2].rv.ops[0].place is not None and sd[0][2].rv.ops[0].place.is_local():
+                src = sd[0][2].rv.ops[0].place.local
+            if b.ty(src) != "bool":
+                continue
+            defs = fv.defs.get(src, [])
+            if len(defs) < 2 or any(d[1] == "T" for d in defs):
+                continue
+            vals = []
+            for (db, di, st) in defs:
+                c = st.rv.ops[0].const if st.kind == "a" and st.rv.op == "use" and st.rv.ops else None
+                vals.append((db, c["s"] if c else None))
+            if any(v not in ("true", "false") for _, v in vals):
+                continue
+            true_blocks = {db for db, v in vals if v == "true"}
+            false_blocks = {db for db, v in vals if v == "false"}
+            # set to true in the mutation's own block (or on every path from it to the test), never reset afterwards
+            if (bi in true_blocks or (true_blocks and sb not in fv.reach(bi, cut_nodes=true_blocks))) and \
+               not (false_blocks & (after - {bi})):
+                for v, tgt in t.arms:
+                    if v == 0:
+                        cuts.add((sb, tgt))
+        return cuts
